@@ -451,6 +451,8 @@ class Ctx:
         matched against KNOWN_FINDINGS.json (status 'known' suppresses, 'fixed' never does)."""
         for k in self.known:
             if k.get("status") == "known" and k["key"] == key:
+                if k.get("where") and not re.search(k["where"], json.dumps(replay, default=str)):
+                    continue   # same mechanism on a different kind of input: not the listed finding
                 if key not in [h[0] for h in self.known_hits]:
                     self.known_hits.append((key, k["what"]))
                 return
